@@ -351,7 +351,7 @@ func c06SchedScenarios(tier string) []*Scenario {
 			Tick()
 			threads := []func(){func() { writer(rec) }, func() { m.St.VerifFlush(false) }}
 			if withDumper {
-				threads = append(threads, func() { m.St.VerifDump() })
+				threads = append(threads, func() { m.St.VerifLimitDumper(m.St.VerifNewHead(0) + 1); m.St.VerifDump() })
 			}
 			s.Parallel(threads...)
 			log := append([]vos.Mut(nil), m.FS.Log...)
